@@ -29,8 +29,8 @@
                                          sending frames (timeout re-armed per received message)
      CloseCode1000WithoutPeerClose       server: closed with code 1000 although no peer close frame
                                          was received and a receive() saw CLOSING (the _closing short-cut)
-     CloseCodeOverwrittenAfterClose      close_code differs from the one reported when close() returned True
-                                         (EofStream handler of receive() writing 1000 over 1006)
+     CloseCodeOverwrittenAfterClose      close_code is not a permitted one and differs from the one reported when
+                                         close() returned True (EofStream handler of receive() writing 1000 over 1006)
      CancelledCloseSkipsCleanup          closed, a close() call ended by CancelledError, and the transport is
                                          still open or (server) the close code is not 1006: the cancel
                                          point `await self._close_wait` has no clean-up *)
@@ -94,9 +94,9 @@ Step(e, c) ==
                       THEN "ReceiveNotStuck"
                  ELSE IF e.closed /\ ~e.tcl
                       THEN (IF m.cancelledClose THEN "CancelledCloseSkipsCleanup" ELSE "ClosedClosesTransport")
-                 ELSE IF e.closed /\ m.ccTrue # 0 /\ e.cc # m.ccTrue THEN "CloseCodeOverwrittenAfterClose"
                  ELSE IF e.closed /\ e.cc \notin Allowed(m, e)
-                      THEN (IF c.side = "server" /\ m.cancelledClose /\ e.cc # 1006 THEN "CancelledCloseSkipsCleanup"
+                      THEN (IF m.ccTrue # 0 /\ e.cc # m.ccTrue THEN "CloseCodeOverwrittenAfterClose"
+                            ELSE IF c.side = "server" /\ m.cancelledClose /\ e.cc # 1006 THEN "CancelledCloseSkipsCleanup"
                             ELSE IF c.side = "server" /\ e.cc = 1000 /\ m.sawClosing THEN "CloseCode1000WithoutPeerClose"
                             ELSE "CloseCodeRule")
                  ELSE "")
